@@ -24,11 +24,13 @@ type CloneStep struct {
 }
 
 type CloneCase struct {
-	Init  int         `json:"init"` // how the root is built: number of initial Dot appends
-	Steps []CloneStep `json:"steps"`
+	Init   int         `json:"init"`             // how the root is built: number of initial Dot appends; -1 = an empty Statement
+	Nils   int         `json:"nils,omitempty"`   // nil items placed inside the root (they render as nothing)
+	Clause bool        `json:"clause,omitempty"` // case-clause scenario: heads (Case/Default) on the original, Blocks on clones
+	Steps  []CloneStep `json:"steps"`
 }
 
-func (c *CloneCase) size() int { return 3*len(c.Steps) + c.Init }
+func (c *CloneCase) size() int { return 3*len(c.Steps) + c.Init + 2*c.Nils + 2 }
 
 type propC20 struct{}
 
@@ -53,6 +55,21 @@ func (propC20) Gen(seed uint64, tier string) *Case {
 		maxSteps, maxClones = 120, 8
 	}
 	cc := &CloneCase{Init: r.Intn(4)}
+	switch r.Intn(12) {
+	case 0:
+		cc.Init = -1 // the original is empty when it is cloned
+	case 1:
+		cc.Nils = r.Range(1, 2)
+	case 2:
+		// clause scenario: few steps over {clone, block on a clone, Case/Default on the original}
+		cc.Init, cc.Clause = -1, true
+		for i := r.Range(3, 8); i > 0; i-- {
+			cc.Steps = append(cc.Steps, CloneStep{K: r.Pick([]string{"clone", "clone", "block", "block", "head"}), A: r.Intn(4), N: r.Intn(2)})
+		}
+		c := &Case{Property: "C20", Seed: seed, Tier: tier, Clone: cc}
+		c.Cfg, _ = json.Marshal(map[string]interface{}{"clause": true})
+		return c
+	}
 	n := r.Range(3, maxSteps)
 	if r.Chance(0.5) {
 		n = r.Range(3, 10) // many short histories
@@ -69,7 +86,11 @@ func (propC20) Gen(seed uint64, tier string) *Case {
 			clones++
 			continue
 		}
-		switch r.Intn(7) {
+		switch r.Intn(9) {
+		case 7:
+			cc.Steps = append(cc.Steps, CloneStep{K: "spread", A: a})
+		case 8:
+			cc.Steps = append(cc.Steps, CloneStep{K: "nil", A: a})
 		case 0:
 			cc.Steps = append(cc.Steps, CloneStep{K: "dot", A: a})
 		case 1:
@@ -127,13 +148,36 @@ func (propC20) Check(c *Case) (*Violation, *RunInfo) {
 	cc := c.Clone
 	uniq := 0
 	next := func() string { uniq++; return "t" + strconv.Itoa(uniq) }
+	if cc.Clause {
+		return checkClause(c, ri)
+	}
 	root := &cloneActor{st: jen.Id("t0"), parent: -1, own: []string{"t0"}}
+	if cc.Init < 0 {
+		root = &cloneActor{st: jen.Add(), parent: -1}
+		ri.count("empty_original", 1)
+	}
 	for i := 0; i < cc.Init; i++ {
 		n := next()
 		root.st.Dot(n)
 		root.own = append(root.own, ".", n)
 	}
+	for i := 0; i < cc.Nils && len(*root.st) > 0; i++ {
+		// a nil item after the first token (Statement is a public slice type)
+		rest := append([]jen.Code{nil}, (*root.st)[1:]...)
+		*root.st = append((*root.st)[:1:1], rest...)
+		ri.count("nil_items_in_original", 1)
+	}
 	actors := []*cloneActor{root}
+	hasTokensBelow := func(ai int) bool { // some descendant of ai already has tokens of its own
+		for i, x := range actors {
+			for p := x.parent; p >= 0; p = actors[p].parent {
+				if p == ai && len(actors[i].own) > 0 {
+					return true
+				}
+			}
+		}
+		return false
+	}
 	var trace []string
 	render := func(a *cloneActor) ([]byte, error) {
 		var buf bytes.Buffer
@@ -190,7 +234,32 @@ func (propC20) Check(c *Case) (*Violation, *RunInfo) {
 		ai := ((st.A % len(actors)) + len(actors)) % len(actors)
 		a := actors[ai]
 		what := fmt.Sprintf("%s by actor %d", st.K, ai)
-		switch st.K {
+		kind := st.K
+		if kind != "clone" && len(nowTokens[ai]) == 0 {
+			// nothing rendered yet: the only append that keeps the chain a valid expression is an identifier
+			if hasTokensBelow(ai) {
+				continue
+			}
+			kind = "id"
+		}
+		switch kind {
+		case "id":
+			n := next()
+			a.st.Id(n)
+			a.own = append(a.own, n)
+			a.appended = true
+		case "nil":
+			*a.st = append(*a.st, nil)
+			a.appended = true
+		case "spread":
+			// the original's items spread into this actor: x.Op("+").Add(*orig...)
+			if len(root.own) == 0 || a == root {
+				continue
+			}
+			a.st.Op("+").Add(*root.st...) // the original's own slice is the variadic argument
+			a.own = append(append(a.own, "+"), root.own...)
+			a.appended = true
+			ri.count("spreads_of_the_original", 1)
 		case "clone":
 			if a.depth >= 3 {
 				continue
@@ -255,7 +324,7 @@ func (propC20) Check(c *Case) (*Violation, *RunInfo) {
 			a.st.Add(items...)
 			a.appended = true
 		}
-		if st.K != "clone" {
+		if kind != "clone" {
 			trace = append(trace, fmt.Sprintf("%s:%d:%d/%d", st.K, ai, len(*a.st), cap(*a.st)))
 			ri.count("appends", 1)
 		}
@@ -302,4 +371,187 @@ func (propC20) Shrink(c *Case, v *Violation) []*Case {
 		out = append(out, mk(cc.Steps, cc.Init-1))
 	}
 	return out
+}
+
+
+// checkClause: the case-clause scenario. The original starts empty and may get a head
+// (Case(x) or Default()); clones may get a Block. A Block directly after a Case/Default
+// renders without braces, a Block appended to a clone keeps them (its previous item is
+// the clone's wrapper) - whatever is appended to the original later must not alter it.
+func checkClause(c *Case, ri *RunInfo) (*Violation, *RunInfo) {
+	cc := c.Clone
+	uniq := 0
+	next := func() string { uniq++; return "t" + strconv.Itoa(uniq) }
+	root := &cloneActor{st: jen.Add(), parent: -1}
+	actors := []*cloneActor{root}
+	blocks := map[int]bool{}
+	hasHead := false
+	chainHasBlock := func(ai int) bool {
+		for p := ai; p >= 0; p = actors[p].parent {
+			if blocks[p] {
+				return true
+			}
+		}
+		return false
+	}
+	belowHasBlock := func(ai int) bool {
+		for i := range actors {
+			for p := actors[i].parent; p >= 0; p = actors[p].parent {
+				if p == ai && blocks[i] {
+					return true
+				}
+			}
+		}
+		return false
+	}
+	expected := func(ai int) []string {
+		var chain []int
+		for p := ai; p >= 0; p = actors[p].parent {
+			chain = append([]int{p}, chain...)
+		}
+		var out []string
+		for _, p := range chain {
+			out = append(out, actors[p].own...)
+		}
+		return out
+	}
+	var trace []string
+	_ = expected
+	// renderInner renders an actor bare or, when that is not a valid fragment (a clause
+	// needs a switch around it), inside Switch().Block(...), and returns the actor's own tokens.
+	renderInner := func(a *cloneActor) ([]string, error) {
+		var firstErr error
+		for _, wrap := range []bool{false, true} {
+			var buf bytes.Buffer
+			var err error
+			func() {
+				defer func() {
+					if p := recover(); p != nil {
+						err = fmt.Errorf("panic: %v", p)
+					}
+				}()
+				if wrap {
+					err = jen.Switch().Block(a.st).Render(&buf)
+				} else {
+					err = a.st.Render(&buf)
+				}
+			}()
+			if err != nil {
+				if firstErr == nil {
+					firstErr = err
+				}
+				continue
+			}
+			toks := scanTokens(buf.Bytes())
+			if wrap {
+				if len(toks) < 3 || toks[0] != "switch" || toks[1] != "{" || toks[len(toks)-1] != "}" {
+					return nil, fmt.Errorf("unexpected wrapper tokens %q", strings.Join(toks, " "))
+				}
+				toks = toks[2 : len(toks)-1]
+			}
+			return toks, nil
+		}
+		return nil, firstErr
+	}
+	now := map[int][]string{}
+	blockForm := map[int]string{}
+	checkAll := func(step int, what string) *Violation {
+		for i, a := range actors {
+			got, err := renderInner(a)
+			if err != nil {
+				return &Violation{Rule: "C20-render-failed", Op: step, Detail: fmt.Sprintf("after step %d (%s): actor %d does not render: %v", step, what, i, err)}
+			}
+			now[i] = got
+			// acceptable renderings: prefix = the parent's rendering at clone time or now (a copying
+			// and a wrapping clone are both fine), then the actor's own appends; a Block of its own
+			// may lose its braces only if what precedes it in the same rendering is a clause head
+			var prefixes [][]string
+			if a.parent < 0 {
+				prefixes = [][]string{nil}
+			} else {
+				prefixes = [][]string{a.atClone, now[a.parent]}
+			}
+			ok := false
+			var wants []string
+			for _, p := range prefixes {
+				variants := [][]string{a.own}
+				if blocks[i] && len(p) > 0 && p[len(p)-1] == ":" && len(a.own) == 5 {
+					variants = append(variants, a.own[1:4])
+				}
+				for vi, v := range variants {
+					w := strings.Join(append(append([]string{}, p...), v...), " ")
+					wants = append(wants, w)
+					if w == strings.Join(got, " ") && !ok {
+						ok = true
+						if blocks[i] {
+							// however the clone's own Block was rendered when it was appended, later
+							// appends to the original must not alter it
+							form := []string{"with braces", "without braces"}[vi]
+							if old, seen := blockForm[i]; seen && old != form {
+								return &Violation{Rule: "C20-tokens-corrupted", Op: step,
+									Detail:   fmt.Sprintf("after step %d (%s): the Block appended to clone %d was rendered %s when it was appended and is rendered %s now: a token owned by the clone was altered by a later append to its original", step, what, i, old, form),
+									Expected: old, Observed: strings.Join(got, " ")}
+							}
+							blockForm[i] = form
+						}
+					}
+				}
+			}
+			if !ok {
+				return &Violation{Rule: "C20-tokens-corrupted", Op: step,
+					Detail:   fmt.Sprintf("after step %d (%s): actor %d (parent %d) renders %q; acceptable: %q", step, what, i, a.parent, strings.Join(got, " "), wants),
+					Expected: strings.Join(wants, " | "), Observed: strings.Join(got, " ")}
+			}
+		}
+		return nil
+	}
+	for si, st := range cc.Steps {
+		ai := ((st.A % len(actors)) + len(actors)) % len(actors)
+		a := actors[ai]
+		what := fmt.Sprintf("%s by actor %d", st.K, ai)
+		switch st.K {
+		case "clone":
+			if a.depth >= 3 || len(actors) >= 5 {
+				continue
+			}
+			actors = append(actors, &cloneActor{st: a.st.Clone(), parent: ai, depth: a.depth + 1, atClone: append([]string{}, now[ai]...)})
+			ri.count("clones", 1)
+		case "block":
+			if a.parent < 0 || chainHasBlock(ai) || belowHasBlock(ai) {
+				continue
+			}
+			n := next()
+			a.st.Block(jen.Id(n).Call())
+			a.own = append(a.own, "{", n, "(", ")", "}")
+			blocks[ai] = true
+			a.appended = true
+			ri.count("blocks_on_clones", 1)
+		case "head":
+			if hasHead {
+				continue
+			}
+			if st.N == 0 {
+				root.st.Default()
+				root.own = append(root.own, "default", ":")
+			} else {
+				n := next()
+				root.st.Case(jen.Id(n))
+				root.own = append(root.own, "case", n, ":")
+			}
+			hasHead = true
+			root.appended = true
+			ri.count("heads_on_original_after_clone_blocks", len(blocks))
+		default:
+			continue
+		}
+		trace = append(trace, fmt.Sprintf("%s:%d", st.K, ai))
+		if v := checkAll(si, what); v != nil {
+			return v, ri
+		}
+		ri.Steps++
+	}
+	ri.Nontrivial = hasHead && len(blocks) > 0
+	ri.Key = digest("clause", trace)
+	ri.Inter = ri.Key
+	return nil, ri
 }
